@@ -58,9 +58,21 @@ func mutgen(repo, root string) int {
 			}
 		}
 	}
+	out := mutSites(p, touched, repo)
+	enc := json.NewEncoder(os.Stdout)
+	enc.SetIndent("", " ")
+	if err := enc.Encode(out); err != nil {
+		return 1
+	}
+	fmt.Fprintf(os.Stderr, "mutgen: %d mutation sites\n", len(out))
+	return 0
+}
+
+// mutSites enumerates the textual mutants of the given declared functions.
+func mutSites(p *Prog, touched map[*Func]bool, repo string) []mutSite {
 	var roots []*Func
 	for f := range touched {
-		if f.Decl != nil {
+		if f != nil && f.Decl != nil {
 			roots = append(roots, f)
 		}
 	}
@@ -89,6 +101,9 @@ func mutgen(repo, root string) int {
 	}
 	text := func(n ast.Node) string {
 		a, b := p.Fset.Position(n.Pos()), p.Fset.Position(n.End())
+		if a.Offset >= b.Offset {
+			return "true" // a normalised (mirrored) comparison: no usable source range
+		}
 		return string(src(a.Filename)[a.Offset:b.Offset])
 	}
 	isLogging := func(f *Func, s ast.Stmt) bool {
@@ -177,11 +192,5 @@ func mutgen(repo, root string) int {
 	for i := range out {
 		out[i].ID = i
 	}
-	enc := json.NewEncoder(os.Stdout)
-	enc.SetIndent("", " ")
-	if err := enc.Encode(out); err != nil {
-		return 1
-	}
-	fmt.Fprintf(os.Stderr, "mutgen: %d declared functions touched by the rules, %d mutation sites\n", len(roots), len(out))
-	return 0
+	return out
 }
